@@ -39,6 +39,8 @@ type LifeOpts struct {
 	Renew     bool
 	Pending   bool  // offer stores relayed by the owner's own account (order stays pending) + Ready
 	Sponsor   bool  // offer sponsored stores (payer P)
+	NoOwnerPA bool  // the owner DID never sets a payment address (refunds are parked for the DID)
+	NoPlain   bool  // do not offer owner-paid stores
 	RemoveCap bool  // offer RemoveVstorage / AddVstorage
 	Drain     bool  // offer "provider sends away all funds" (debt creation)
 	Mid       bool  // offer midpoint jumps
@@ -52,7 +54,11 @@ func commitName(n uint64) string { return fmt.Sprintf("%08d-cccc-cccc-cccc-%012d
 func lifeRoots(o LifeOpts) []engine.Root {
 	var roots []engine.Root
 	mk := func(w *world.World) []engine.SetupStep {
-		return SetupBase(w, []int{world.O, world.W, world.P}, []int{world.G}, o.SPs, o.Capacity)
+		owners := []int{world.O, world.W, world.P}
+		if o.NoOwnerPA {
+			owners = []int{world.W, world.P}
+		}
+		return SetupBase(w, owners, []int{world.G}, o.SPs, o.Capacity)
 	}
 	size := o.Sizes[len(o.Sizes)-1]
 	for _, name := range o.Roots {
@@ -108,7 +114,9 @@ func lifeOps(w *world.World, ctx sdk.Context, o LifeOpts) []engine.Op {
 				for _, dur := range o.Durations {
 					for _, to := range o.Timeouts {
 						args := fmt.Sprintf("%s,sz=%d,r=%d,d=%d,t=%d", d[:2], sz, rep, dur, to)
-						if !exists {
+						if !exists && o.NoPlain {
+							out = append(out, Tx("store-sponsored", "store-sponsored("+args+")", StoreMsg(w, StoreP{Signer: world.O, Relayer: world.P, Gateway: world.G, DataId: d, CommitId: d, Size: sz, Replica: rep, Duration: dur, Timeout: to, PayDid: w.A(world.P).Did})))
+						} else if !exists {
 							out = append(out, Tx("store", "store("+args+")", StoreMsg(w, StoreP{Signer: world.O, Relayer: world.G, Gateway: world.G, DataId: d, CommitId: d, Size: sz, Replica: rep, Duration: dur, Timeout: to})))
 							if o.Pending {
 								out = append(out, Tx("store-pending", "store-pending("+args+")", StoreMsg(w, StoreP{Signer: world.O, Relayer: world.O, Gateway: world.G, DataId: d, CommitId: d, Size: sz, Replica: rep, Duration: dur, Timeout: to})))
